@@ -19,6 +19,9 @@ import copy
 
 MAX_STMTS = 60
 MAX_DEPTH = 3
+# functions that carry their own contract / are recognised by the analyses as callees: never inlined
+KEEP = {"_get_image_pixel_dimensions", "_get_content_type", "guess_content_type", "_normalize_relative_path", "_resolve_drawing_path",
+        "resolve_part_name", "parse_relationships"}
 
 
 def _is_generator(fn):
@@ -128,23 +131,25 @@ def _bind(helper, call):
 
 
 class Inliner:
-    def __init__(self, mod, top_name):
+    def __init__(self, mod, top_name, keep=()):
         self.mod = mod
         self.top = top_name
+        self.keep = set(KEEP) | set(keep)
+        self.tail = False
         self.counter = 0
         self.inlined = []
 
-    def helper(self, call, stack):
+    def helper(self, call, stack, tail=False):
         if not (isinstance(call, ast.Call) and isinstance(call.func, ast.Name)):
             return None
         name = call.func.id
-        if not name.startswith("_") or name in stack or name == self.top:
+        if not name.startswith("_") or name in stack or name == self.top or name in self.keep:
             return None
         h = self.mod.functions.get(name)
         if h is None or not isinstance(h, ast.FunctionDef) or _is_generator(h) or h.decorator_list:
             return None
         body = [s for s in h.body if not (isinstance(s, ast.Expr) and isinstance(s.value, ast.Constant))]
-        if sum(1 for _ in ast.walk(h) if isinstance(_, ast.stmt)) > MAX_STMTS or not _returns_only_structured(body):
+        if sum(1 for _ in ast.walk(h) if isinstance(_, ast.stmt)) > MAX_STMTS or (not tail and not _returns_only_structured(body)):
             return None
         if any(isinstance(n, ast.Call) and isinstance(n.func, ast.Name) and n.func.id == name for n in ast.walk(h)):
             return None
@@ -174,6 +179,25 @@ class Inliner:
             for n in ast.walk(s):
                 if not hasattr(n, "lineno"):
                     pass
+            ast.copy_location(s, at)
+        self.inlined.append(h.name)
+        return self.block(new, stack + [h.name])
+
+    def expand_tail(self, h, call, at, stack):
+        """`return h(args)`: the helper's body takes the place of the statement, its own `return`s stay returns of the caller."""
+        binding = _bind(h, call)
+        if binding is None:
+            return None
+        self.counter += 1
+        sfx = f"__{h.name.strip('_')}{self.counter}"
+        mapping = {n: n + sfx for n in _locals_of(h)}
+        ren = _Renamer(mapping)
+        body = [ren.visit(copy.deepcopy(s)) for s in h.body if not (isinstance(s, ast.Expr) and isinstance(s.value, ast.Constant))]
+        pre = [ast.Assign(targets=[ast.Name(id=mapping[p], ctx=ast.Store())], value=copy.deepcopy(v)) for (p, v) in binding]
+        new = pre + body
+        if not _always_returns(body):
+            new.append(ast.Return(value=ast.Constant(value=None)))
+        for s in new:
             ast.copy_location(s, at)
         self.inlined.append(h.name)
         return self.block(new, stack + [h.name])
@@ -250,6 +274,10 @@ class Inliner:
                     h = self.helper(s.value, stack)
                     if h is not None and self.expr_helper(h) is None:
                         rep = self.expand(h, s.value, None, s, stack)
+                elif isinstance(s, ast.Return) and isinstance(s.value, ast.Call) and self.tail:
+                    h = self.helper(s.value, stack, tail=True)
+                    if h is not None and self.expr_helper(h) is None:
+                        rep = self.expand_tail(h, s.value, s, stack)
                 if rep is not None:
                     out.extend(rep)
                     continue
@@ -264,6 +292,41 @@ class Inliner:
                     h.body = self.block(h.body, stack)
             out.append(s)
         return out
+
+
+def propagate_param_copies(fn):
+    """`x = p` where p is a parameter that is never re-bound and x is bound exactly once: x is replaced by p, the copy is dropped."""
+    params = {a.arg for a in fn.args.posonlyargs + fn.args.args + fn.args.kwonlyargs}
+    stores = {}
+    for n in ast.walk(fn):
+        if isinstance(n, ast.Name) and isinstance(n.ctx, ast.Store):
+            stores[n.id] = stores.get(n.id, 0) + 1
+    stable = {p for p in params if stores.get(p, 0) == 0}
+    changed = True
+    while changed:
+        changed = False
+        for parent in ast.walk(fn):
+            for fld in ("body", "orelse", "finalbody"):
+                lst = getattr(parent, fld, None)
+                if not isinstance(lst, list):
+                    continue
+                for k, st in enumerate(lst):
+                    if isinstance(st, ast.Assign) and len(st.targets) == 1 and isinstance(st.targets[0], ast.Name) and isinstance(st.value, ast.Name) \
+                            and st.value.id in stable and stores.get(st.targets[0].id, 0) == 1 and st.targets[0].id not in params:
+                        x, pn = st.targets[0].id, st.value.id
+                        del lst[k]
+                        if not lst:
+                            lst.append(ast.copy_location(ast.Pass(), st))
+                        for n in ast.walk(fn):
+                            if isinstance(n, ast.Name) and n.id == x:
+                                n.id = pn
+                        changed = True
+                        break
+                if changed:
+                    break
+            if changed:
+                break
+    return fn
 
 
 def renumber(fn):
@@ -287,20 +350,25 @@ def renumber(fn):
 _CACHE: dict = {}
 
 
-def inlined(mod, qual):
-    """-> (FunctionDef copy with helpers inlined and nodes renumbered, [names of inlined helpers]); the original when nothing applies."""
+def inlined(mod, qual, keep=(), tail=False):
+    """-> (FunctionDef copy with helpers inlined and nodes renumbered, [names of inlined helpers]); the original when nothing applies.
+    keep: names never inlined (besides KEEP); tail: also inline `return helper(...)` (helper body with its own returns, loops allowed)."""
     fn = mod.functions.get(qual)
     if fn is None:
         return None, []
-    key = (id(mod), qual)
+    key = (id(mod), qual, tuple(sorted(keep)), tail)
     if key in _CACHE:
         return _CACHE[key]
     f2 = copy.deepcopy(fn)
-    inl = Inliner(mod, qual.split(".")[-1])
+    inl = Inliner(mod, qual.split(".")[-1], keep if not tail else set(keep) - KEEP)
+    if tail:
+        inl.keep = set(keep)
+    inl.tail = tail
     try:
         f2.body = inl.block(f2.body, [])
         ast.fix_missing_locations(f2)
         if inl.inlined:
+            propagate_param_copies(f2)
             renumber(f2)
             res = (f2, inl.inlined)
         else:
